@@ -76,13 +76,17 @@ def closure(index, specs, fname):
     return defined, sorted(replaced)
 
 
-def contract_text(sig, clauses, prop, linemap, lines, who):
+def contract_text(sig, clauses, prop, linemap, lines, who, enforced=False):
     lines.append(sig)
     for cl in clauses:
         if cl.kind in ('ensures', 'requires') and not cl.enabled(prop):
             continue
         kw = {'requires': '__CPROVER_requires', 'ensures': '__CPROVER_ensures', 'assigns': '__CPROVER_assigns'}[cl.kind]
-        lines.append('  %s(%s)' % (kw, cl.expr))
+        # LIFT(c): alignment of the ghost observation points with the arguments.  Proved under the
+        # alignment when the function is enforced, used unconditionally when it is replaced (lemma L1-lift:
+        # the consequent never mentions G-dependent state and an aligned G exists for all in-range arguments)
+        expr = cl.expr.replace('LIFT(', 'BG_LIFT_ENF(' if enforced else 'BG_LIFT_REP(')
+        lines.append('  %s(%s)' % (kw, expr))
         linemap[len(lines)] = {'fn': who, 'kind': cl.kind, 'tags': cl.tags, 'name': cl.name, 'src': cl.src,
                                'expr': cl.expr}
     lines.append(';')
@@ -230,7 +234,7 @@ def gen_unit(gen_dir, index, specs, fname, prop, path, extra_harness='', debug=F
     for f in defined:
         L.append(index['functions'][f]['sig'] + ';')
     linemap = {}
-    contract_text(index['functions'][fname]['sig'], specs.contracts[fname], prop, linemap, L, fname)
+    contract_text(index['functions'][fname]['sig'], specs.contracts[fname], prop, linemap, L, fname, True)
     for g in replaced:
         ent = index['functions'].get(g)
         if ent is None or ent['status'] != 'ok':
@@ -256,7 +260,11 @@ def gen_unit(gen_dir, index, specs, fname, prop, path, extra_harness='', debug=F
     ret, name, params = split_params(index['functions'][fname]['sig'])
     L.append('void bg_harness(void) {')
     L.append('  G_P = nondet_vertex(); G_Q = nondet_vertex(); bg_exc = nondet_int();')
-    L.append('  bg_scratch_row.valid = nondet_bg_bool(); bg_scratch_row.owner = 0; bg_scratch_row.from = 0; bg_cur_adj = 0; bg_ghost_frontier.a = 0;')
+    if '__loop' in fname:
+        # an outlined loop inherits the cache state of its caller: everything nondeterministic
+        L.append('  __CPROVER_havoc_object(&bg_scratch_row); bg_cur_adj = nondet_adjp(); bg_ghost_frontier.a = 0;')
+    else:
+        L.append('  bg_scratch_row.valid = nondet_bg_bool(); bg_scratch_row.owner = 0; bg_scratch_row.from = 0; bg_cur_adj = 0; bg_ghost_frontier.a = 0;')
     for t in ('VLabel', 'NoLabel', 'uint', 'real'):
         L.append('  bg_scratch_val_%s.valid = 0;' % t)
     if extra_harness:
